@@ -143,6 +143,20 @@ KqRootClosed(k, sv, kq, pts) ==
 KqRootChecked(k, sv, kq, pts) ==
     \E i \in 1..Len(sv), j \in 1..Len(pts) : RootInRange(k, pts[j], sv[i], kq[i][j], 10)
 
+(* logged values of the RBF kernel inside a fit against what characterises exp(-gamma d^2) on
+   the (small-integer) squared distances: range, value 1 at distance 0, the Taylor enclosure
+   for gamma d^2 <= 1, and -- for small fits -- non-increasing in d^2.  kq is at scale 2^10.
+   Needed because a decision function computed from a wrong kernel is still consistent with
+   the logged values of that same kernel. *)
+KqRbfClosed(k, sv, kq, pts) ==
+    /\ \A i \in 1..Len(sv), j \in 1..Len(pts) :
+          /\ kq[i][j] >= 0 /\ kq[i][j] <= 1024
+          /\ (D2(pts[j], sv[i]) = 0) => kq[i][j] = 1024
+          /\ RbfTaylor(k.gn, k.gd, D2(pts[j], sv[i]), kq[i][j], 10)
+    /\ (Len(pts) <= 24) =>
+          \A i \in 1..Len(sv), j1 \in 1..Len(pts), j2 \in 1..Len(pts) :
+              (D2(pts[j1], sv[i]) <= D2(pts[j2], sv[i])) => kq[i][j1] >= kq[i][j2]
+
 (* ---------------------------------------------------------------------- *)
 (* predicted label: the larger class value exactly when f(x) > 0           *)
 (*   fs[j] = exact sign of the recorded decision value                     *)
